@@ -133,6 +133,13 @@ struct GramEngine {
     Gram g;
     if (!fam) { g = curated[gi]; return g; }
     Skel s = fam->skels[gi];
+    if (ov >= 100) {  // ov = 100 + k: the k-th permutation of the rule list (nonterminals are created in order of first
+                      // mention, rules of a nonterminal are processed in reverse declaration order: both depend on it);
+                      // permutations whose first rule does not belong to the start symbol are replaced by the identity
+      std::vector<int> perm(s.size()); for (size_t i = 0; i < s.size(); i++) perm[i] = (int) i;
+      for (int k = 0; k < ov - 100; k++) if (!std::next_permutation(perm.begin(), perm.end())) break;
+      if (s[perm[0]].lhs == 0) { Skel t; for (int i : perm) t.push_back(s[i]); s = t; }
+    } else
     if (ov == 1) {  // same rule set, rules of each lhs in reverse order (start rule stays an lhs-0 rule)
       std::stable_sort(s.begin(), s.end(), [](const SkelRule &a, const SkelRule &b) { if (a.lhs != b.lhs) return a.lhs < b.lhs; return skelrule_less(b, a); });
     }
